@@ -7,7 +7,7 @@
    [itree_equiv] is equality of imported trees with the in-scope bindings read as a finite
    map; [policy] is the documented white-space policy. *)
 From MP Require Import Common.Base Common.Tree Common.XStr Spec.Xml Spec.XmlSim Spec.Infoset Spec.Mirror
-  Model.XmlOut Model.XmlIn Proofs.C08_Policy Proofs.C08_Mirror Proofs.C08_Stable.
+  Model.XmlOut Model.XmlIn Proofs.C07_Parse Proofs.C08_Policy Proofs.C08_Mirror Proofs.C08_Stable Proofs.C08_Chain.
 
 (** Import mirrors the infoset: for every infoset of the class, all four (clean, collapse)
     combinations and any literals, the import succeeds and returns the mirror. *)
@@ -48,12 +48,49 @@ Theorem policy_stable_under_ws : forall clean collapse lit a b,
 Proof. exact policy_ws_stable. Qed.
 Print Assumptions policy_stable_under_ws.
 
-(** Stability, partial: the imported tree is the mirror, and if it lies in the exporter's
-    class (C07) its export is well-formed and parses back to it up to surrounding white
-    space.  Not proved in general: that the model of the import applied to that parse
-    result gives the imported tree again ([C08_stable_statement]); it is witnessed below
-    for a document with re-declared prefixes, qualified attributes, xml:lang, a comment,
-    tails and white-space text, in all four modes, by evaluation of the models. *)
+(** Stability.  [C08_stable_full_statement] (= Proofs/C08_Stable.v [C08_stable_statement]) is now
+    a THEOREM, for all four (clean, collapse) combinations and any literals tuple:
+    for an infoset of the document class in which no namespace name of a qualified attribute
+    is bound to two prefixes in scope ([uri_prefix_unique]; the alias class is the known finding),
+    if the imported tree lies in the exporter's class ([exportable] = the C07 preconditions),
+    then exporting it (metapype_io.to_xml), parsing the output (xparse, read as lxml does) and
+    importing again with the same flags succeeds and gives the same tree: equal names,
+    prefixes, attributes, qualified attributes (same keys), child order; in-scope bindings equal as
+    finite maps; content and tail equal up to leading/trailing white space.
+    The last clause cannot be sharpened to equality, in raw mode (the exporter's newline and
+    indentation are imported) NOR in clean mode ([clean_mode_not_exact]: kept blank text, or the
+    text of a literal element, in front of children absorbs the indentation); no restriction on
+    literal elements is needed for the white-space version.
+    [exportable] is a hypothesis on the imported tree, not derived from the document. *)
+Definition C08_stable_full_statement : Prop := C08_stable_statement.
+
+Theorem C08_stable : C08_stable_full_statement.
+Proof. exact C08_stable_proof. Qed.
+Print Assumptions C08_stable.
+
+(** the same, read off the models: the second import applied to the exact parse result *)
+Theorem C08_reimport : forall clean collapse literals ft,
+  tree_imp clean collapse literals ft -> n_tail (ft_d ft) = None ->
+  exists t2, process_element clean collapse literals (lxml_of [] (layout None 0 ft [])) = Ok t2
+             /\ srel t2 ft.
+Proof. exact reimport_tree. Qed.
+Print Assumptions C08_reimport.
+
+Theorem C08_clean_mode_not_exact :
+  infoset_ok doc_blank
+  /\ match process_element true false [] doc_blank with
+     | Ok t => match reimport true false [] t with
+               | Ok t2 => i_content (it_d t) = Some (s " ") /\ i_content (it_d t2) = Some (s "   ")
+                          /\ stable_relb t2 t = true
+               | Crash _ => False
+               end
+     | Crash _ => False
+     end.
+Proof. exact clean_mode_not_exact. Qed.
+Print Assumptions C08_clean_mode_not_exact.
+
+(** superseded by C08_stable, kept: the export of an imported tree is well-formed and parses back
+    to it up to white space *)
 Theorem C08_stable_partial : forall clean collapse literals e t ft,
   infoset_ok e ->
   process_element clean collapse literals e = Ok t ->
@@ -62,8 +99,6 @@ Theorem C08_stable_partial : forall clean collapse literals e t ft,
   /\ exists x, xparse (to_xml_top ft) = Some x /\ sim [] x ft.
 Proof. exact C08_stable_partial_proof. Qed.
 Print Assumptions C08_stable_partial.
-
-Definition C08_stable_full_statement : Prop := C08_stable_statement.
 
 Theorem C08_stable_witness :
   chain_ok true false doc_ok = true /\ chain_ok true true doc_ok = true
